@@ -79,12 +79,48 @@ def dense_of(shape: Sequence[int], part: Dict) -> np.ndarray:
     return A
 
 
+INT_DTYPES = ("int64", "int32", "int8", "uint8")
+
+
+def part_dtype(part) -> str:
+    """value dtype the operand is held in ('float64' unless the case says otherwise; integer dtypes are only ever
+    assigned to operands whose values are all integers)"""
+    return part.get("dtype", "float64")
+
+
+def dtype_kind(part) -> str:
+    dt = part_dtype(part)
+    return "f" if dt.startswith("float") else ("u" if dt.startswith("uint") else "i")
+
+
+def integral(vals) -> bool:
+    """all values are integers small enough for every integer dtype used here (int8 sums and products included)"""
+    return all(float(v) == int(v) and abs(v) <= 10 for v in vals)
+
+
 def sp_of(shape, part) -> ttb.sptensor:
-    return gen.build_sptensor(dict(shape=list(shape), subs=part["subs"], vals=part["vals"]))
+    """The sparse operand: stored nonzeros in stored order, values in the operand's dtype.  part['zsubs'] /
+    part['zpos'] (derived-state cells only) list cells that are held as explicitly stored zeros and where they go in
+    the stored order; part['shapekind'] == 'npint' hands the shape over as numpy integers."""
+    shape = tuple(int(s) for s in shape)
+    subs, vals = [list(x) for x in part["subs"]], [float(v) for v in part["vals"]]
+    for z, pos in zip(part.get("zsubs", []), part.get("zpos", [])):
+        subs.insert(min(pos, len(subs)), list(z)), vals.insert(min(pos, len(vals)), 0.0)
+    shp = tuple(np.int64(n) for n in shape) if part.get("shapekind") == "npint" else shape
+    if not subs:
+        return ttb.sptensor(shape=shp)
+    return ttb.sptensor(np.array(subs, dtype=int).reshape(len(subs), len(shape)),
+                        np.array(vals, dtype=float).astype(part_dtype(part)).reshape(-1, 1), shp)
 
 
 def tn_of(shape, part) -> ttb.tensor:
-    return ttb.tensor(dense_of(shape, part).copy(order="F"), tuple(int(s) for s in shape))
+    """The dense operand in the operand's dtype; part['prov'] == 'grown': reached by growing a smaller tensor by
+    assignment (gen.build_tensor), which leaves a C-ordered buffer and numpy integers in `shape`."""
+    shape = tuple(int(s) for s in shape)
+    A = dense_of(shape, part)
+    if part.get("prov") == "grown":
+        return gen.build_tensor(dict(shape=list(shape), data=np.ravel(A, order="F").tolist(), prov="grown"))
+    return ttb.tensor(np.asfortranarray(A.astype(part_dtype(part))), shape)
 
 
 def scalar_of(case):
@@ -122,12 +158,33 @@ def supports_differ(case) -> bool:
     return set(_keys(case["a"])) != set(_keys(case["b"]))
 
 
+def extra_tags(case) -> List[str]:
+    """Input classes beyond the default (float64 values, freshly constructed operands): appended to the tag list
+    only when present, so that the clause names of the default class are unchanged.
+    dt-XY: value dtypes of the left (X) and right (Y) operand, f float / i signed integer / u unsigned integer / s Python
+    scalar; ez: an operand holds explicitly stored zeros; grown: the dense operand was grown by assignment."""
+    ka = dtype_kind(case["a"])
+    kb = dtype_kind(case["b"]) if "b" in case else "s"
+    t = []
+    if ka != "f" or kb not in ("f", "s"):
+        t.append(f"dt-{ka}{kb}")
+    if case["a"].get("zsubs") or ("b" in case and case["b"].get("zsubs")):
+        t.append("ez")
+    if "b" in case and case["b"].get("prov") == "grown":
+        t.append("grown")
+    return t
+
+
+def has_unsigned(case) -> bool:
+    return dtype_kind(case["a"]) == "u" or ("b" in case and dtype_kind(case["b"]) == "u")
+
+
 def tags_spsp(case) -> List[str]:
     na, nb = len(case["a"]["subs"]), len(case["b"]["subs"])
     t = [f"a{_n(na)}b{_n(nb)}"]
     t.append("ord-diff" if common_order_differs(case) else "ord-same")
     t.append("supp-diff" if supports_differ(case) else "supp-same")
-    return t
+    return t + extra_tags(case)
 
 
 def dense_zero_count(case) -> int:
@@ -150,7 +207,7 @@ def tags_sptn(case) -> List[str]:
     t = [f"a{_n(na)}z{_n(dense_zero_count(case))}"]
     t.append("Tzero-at-stored" if dense_zero_under_stored(case) else "Tnz-at-stored")
     t.append("has-00" if both_zero_somewhere(case) else "no-00")
-    return t
+    return t + extra_tags(case)
 
 
 def scalar_matches(case) -> str:
@@ -168,7 +225,7 @@ def tags_scalar(case) -> List[str]:
     c = float(case["c"])
     full = na == ref.prod(case["shape"])
     return [f"a{_n(na)}" + ("full" if full else ""), "c0" if c == 0 else ("c+" if c > 0 else "c-"),
-            "match-" + scalar_matches(case)]
+            "match-" + scalar_matches(case)] + extra_tags(case)
 
 
 def nontrivial_pair(case) -> bool:
@@ -261,40 +318,78 @@ def check_result(ctx, name: str, tagstr: str, R, expect: np.ndarray, info="", bo
     if split is None or got.shape != expect.shape:
         ctx.check(ref.same_exact(got, expect), f"{name}:values{sfx}", f"{ref.diff_info(got, expect)} {info}")
         return
-    # two clauses: the positions of the named class, and all the others (so that a known defect that is confined
-    # to one class of positions does not excuse a wrong value anywhere else)
-    where, mask = split
-    mask = np.asarray(mask, dtype=bool)
-    g_in, e_in = np.where(mask, got, 0.0), np.where(mask, expect, 0.0)
-    g_out, e_out = np.where(mask, 0.0, got), np.where(mask, 0.0, expect)
+    # several clauses: the positions of each named class (a position belongs to the first class that contains it),
+    # and all the others (so that a known defect that is confined to one class of positions does not excuse a wrong
+    # value anywhere else)
+    splits = [split] if isinstance(split, tuple) else list(split)
+    rest = np.ones(expect.shape, dtype=bool)
+    for where, mask in splits:
+        m = np.asarray(mask, dtype=bool) & rest
+        rest &= ~m
+        g_in, e_in = np.where(m, got, 0.0), np.where(m, expect, 0.0)
+        ctx.check(ref.same_exact(g_in, e_in), f"{name}:values@{where}{sfx}", f"{ref.diff_info(g_in, e_in)} {info}")
+    g_out, e_out = np.where(rest, got, 0.0), np.where(rest, expect, 0.0)
     ctx.check(ref.same_exact(g_out, e_out), f"{name}:values{sfx}", f"{ref.diff_info(g_out, e_out)} {info}")
-    ctx.check(ref.same_exact(g_in, e_in), f"{name}:values@{where}{sfx}", f"{ref.diff_info(g_in, e_in)} {info}")
 
 
-def run_op(ctx, name: str, tagstr: str, fn, expect_fn, info="", split=None) -> None:
-    """Call pyttb (exception = violation of `<name>:<Exc>@frame [tags]`), then check; never aborts the case."""
+def run_op(ctx, name: str, tagstr: str, fn, expect_fn, info="", split=None, unsigned: bool = False) -> None:
+    """Call pyttb (exception = violation of `<name>:<Exc>@frame [tags]`), then check; never aborts the case.
+
+    expect_fn works on the float64 expansions, i.e. it gives the mathematical result.  unsigned: an operand is held
+    in an unsigned integer dtype; an operation whose true result has a negative entry is then outside the domain (an
+    unsigned array cannot hold it, NumPy wraps around or refuses) and is not run."""
+    with np.errstate(all="ignore"):
+        expect = expect_fn()
+    if unsigned and np.any(np.asarray(expect, dtype=float) < 0):
+        ctx.label("not-run:negative-result-with-unsigned-operand")
+        return
     try:
         with ctx.sut(f"{name} [{tagstr}]"):
             R = fn()
     except Abort:
         return
-    with np.errstate(all="ignore"):
-        expect = expect_fn()
     check_result(ctx, name, tagstr, R, expect, info, boolean=name.split("/")[0] in COMPARE + LOGIC + ("not",),
                  split=split)
 
 
-def value_split(name: str, A: np.ndarray, B: np.ndarray):
+def check_unchanged(ctx, name: str, *pairs) -> None:
+    """`<name>:operand-unchanged`: an operation must leave its operands as they were (they denote the same arrays
+    and store the same number of entries), otherwise the next call on the same objects sees other inputs"""
+    ok = True
+    for X, A in pairs:
+        try:
+            ok = ok and ref.same_exact(ref.den(X), A)
+        except Exception:  # noqa: BLE001
+            ok = False
+    ctx.check(ok, f"{name}:operand-unchanged")
+
+
+def explicit_zero_mask(case):
+    """positions at which an operand of the case holds an explicitly stored zero (None when there is none)"""
+    cells = [tuple(int(i) for i in z) for k in ("a", "b") if k in case for z in case[k].get("zsubs", [])]
+    if not cells:
+        return None
+    m = np.zeros(tuple(int(s) for s in case["shape"]), dtype=bool)
+    for c in cells:
+        m[c] = True
+    return m
+
+
+def value_split(name: str, A: np.ndarray, B: np.ndarray, case=None):
     """Position classes to which an already-known value defect is confined (see known_findings/C03.json):
-    sptensor*sptensor, ==, / pair the *common* entries; S.logical_and(T) errs where S is stored and T is zero;
-    S/T errs where both are zero."""
+    positions where an operand holds an explicitly stored zero (derived-state cells); sptensor*sptensor, ==, / pair
+    the *common* entries; S.logical_and(T) errs where S is stored and T is zero; S/T errs where both are zero."""
+    out = []
+    ez = explicit_zero_mask(case) if case is not None else None
+    if ez is not None:
+        out.append(("explicit-zero", ez))
     if name in ("mul/sp-sp", "eq/sp-sp", "div/sp-sp"):
-        return ("common", (A != 0) & (B != 0))
+        out.append(("common", (A != 0) & (B != 0)))
     if name == "and/sp-tn":
-        return ("S-stored-T-zero", (A != 0) & (B == 0))
+        out.append(("S-stored-T-zero", (A != 0) & (B == 0)))
     if name == "div/sp-tn":
-        return ("both-zero", (A == 0) & (B == 0))
-    return None
+        out.append(("both-zero", (A == 0) & (B == 0)))
+    return out or None
 
 
 # --------------------------------------------------------------------------
@@ -345,7 +440,17 @@ def pair_case(shape, pa: int, pb: int, rep: int, permute_b: bool = True) -> dict
     ea = _stored(rng, ea)
     if permute_b:
         eb = _stored(rng, eb)
-    return dict(shape=list(shape), a=_part(ea), b=_part(eb))
+    a, b = _part(ea), _part(eb)
+    rng2 = random.Random(_seed(shape, pa, pb, rep, 7919))
+    enum_dtype(rng2, a), enum_dtype(rng2, b)
+    return dict(shape=list(shape), a=a, b=b)
+
+
+def enum_dtype(rng: random.Random, part) -> None:
+    """an operand whose values are all integers is held in an integer dtype two times in three"""
+    vals = part["vals"]
+    if vals and integral(vals) and rng.randrange(3):
+        part["dtype"] = rng.choice(["int64", "int64", "int32", "uint8" if min(vals) > 0 else "int8"])
 
 
 def enum_plan(tier: str, base_reps: int):
@@ -385,6 +490,8 @@ def scalar_cases(tier: str):
                     v = rng.choice(VALUE_SET)
                     ea = [(s, v) for s, _ in ea]
                 ea = _stored(rng, ea)
+                a = _part(ea)
+                enum_dtype(random.Random(_seed(shape, pa, rep, -2)), a)
                 for c in SCALARS:
-                    yield dict(shape=list(shape), a=_part(ea), c=float(c),
+                    yield dict(shape=list(shape), a=a, c=float(c),
                                ckind="int" if isinstance(c, int) else "float")
